@@ -30,7 +30,9 @@
 (*         tell: the property is silent)                                     *)
 (*   paren the line contains "(" : it can be read as SYMBOL(ARGS)            *)
 (*   sig   SYMBOL is runtime.sigpanic                                        *)
-(*   pc    "none" | "ok" (the line ends in one pc=0xHEX field)               *)
+(*   pc    "none" | "nonepath" (no pc field at the end of the line -- an     *)
+(*         inlined call -- but a blank-delimited word pc=0xADDR inside the   *)
+(*         file path) | "ok" (the line ends in one pc=0xHEX field)           *)
 (*         | "okpath" (same, and " pc=" also occurs earlier, i.e. inside the *)
 (*         file path) | "huge" (a 64-bit value that is no code address)      *)
 (*         | "bad" (a pc= field that is not a 64-bit number)                 *)
@@ -86,7 +88,7 @@ WellFormed(h) ==
           /\ \A i \in (hd + 1)..(e - 1) :
                 /\ h[i].s = "text"
                 /\ IF (i - hd) % 2 = 1 THEN h[i].paren
-                                        ELSE h[i].pc \in {"none", "ok", "okpath"}
+                                        ELSE h[i].pc \in {"none", "nonepath", "ok", "okpath"}
 
 RECURSIVE FrameSeqOf(_, _, _, _)
 FrameSeqOf(h, hd, P, R) == IF R = {} THEN <<>>
@@ -206,7 +208,7 @@ StepT(p, l, i) ==
           ELSE IF IsPC(l)
                THEN [p EXCEPT !.sympos = TRUE, !.lastSig = p.curSig,
                               !.pcs = Append(p.pcs, [i |-> i, trap |-> p.lastSig])]
-               ELSE IF l.pc = "none" THEN [p EXCEPT !.sympos = TRUE]
+               ELSE IF l.pc \in {"none", "nonepath"} THEN [p EXCEPT !.sympos = TRUE]
                     ELSE [p EXCEPT !.sympos = TRUE, !.wf = FALSE]
 
 Step(p, l, i) ==
